@@ -845,6 +845,59 @@ func reloadedInstance(r *rep.Report) {
 	}
 }
 
+// remVsAdd: one client removes the scheduled rule s while another adds s again (scheduled, both
+// acknowledged).  In whichever order the two take effect, afterwards s is registered with the cron
+// service exactly if it exists.
+func remVsAdd(r *rep.Report, e rep.Env) {
+	for _, kind := range drv.Kinds {
+		w, err := newWorld(kind, true)
+		if err != nil {
+			r.Violate("", "cannot build world", nil)
+			return
+		}
+		loc := w.locs["A"]
+		n := e.Pick(3000, 20000)
+		bad := 0
+		var first rep.J
+		for i := 0; i < n; i++ {
+			loc.AddRule(drv.Ctx(), "s", core.Map(schedRule("A", "s", "0 0 1 1 *", "v1")))
+			var wg sync.WaitGroup
+			start := make(chan bool)
+			var remErr, addErr error
+			wg.Add(2)
+			go func() { defer wg.Done(); <-start; _, remErr = loc.RemRule(drv.Ctx(), "s") }()
+			go func() {
+				defer wg.Done()
+				<-start
+				_, addErr = loc.AddRule(drv.Ctx(), "s", core.Map(schedRule("A", "s", "0 0 2 1 *", "v2")))
+			}()
+			close(start)
+			wg.Wait()
+			_, gerr := loc.GetRule(drv.Ctx(), "s")
+			registered := false
+			for _, j := range w.rec.Jobs() {
+				if j.Location == "A" && j.Id == "s" {
+					registered = true
+				}
+			}
+			if remErr == nil && addErr == nil && (gerr == nil) != registered {
+				bad++
+				if first == nil {
+					first = rep.J{"state": kind, "round": i, "rule_exists": gerr == nil, "registered_with_the_cron_service": registered}
+				}
+			}
+			loc.RemRule(drv.Ctx(), "s")
+			w.rec.Drop("A", "s")
+		}
+		r.Case(true, "rem-vs-add"+kind)
+		r.Count("rem_vs_add_rounds", n)
+		if bad > 0 {
+			first["rounds"], first["rounds_with_this_outcome"] = n, bad
+			r.Violate("", "RemRule(s) against AddRule(s) of a scheduled rule: afterwards the rule's existence and its registration with the cron service disagree", first)
+		}
+	}
+}
+
 // croltGlue: the System with the glue for the persistent cron service (cron.CroltSimple) and a
 // stand-in for that service which keeps the job table its /add and /rem requests describe
 // (account = location, id = rule id; same parameters as crolt's handlers).  After every step the
@@ -989,6 +1042,9 @@ func main() {
 		expiry(r)
 		builtin(r)
 	default:
+		if e.Batch == 0 {
+			remVsAdd(r, e)
+		}
 		campaign(r, e)
 	}
 	r.Write()
